@@ -161,9 +161,17 @@ func checkC17(c *Ctx) {
 			pc.Steps = append(pc.Steps, openStep(k, files[k]))
 			evs = append(evs, fmt.Sprintf(`{"uri":"file://$ROOT/%s","type":2}`, k))
 		}
+		// one of the files really changed on disk (a further undefined name at its end): its event comes last in the batch,
+		// after the events of files that a rule may ignore
+		late := files["main.lua"] + "print(undef_late)\n"
+		pc.Steps = append(pc.Steps, proto.Step{M: "fs.write", Path: "main.lua", Text: late})
 		pc.Steps = append(pc.Steps, proto.Step{M: "workspace/didChangeWatchedFiles", N: true, P: json.RawMessage(`{"changes":[` + strings.Join(evs, ",") + `]}`)})
 		sv := names[int(hash64(string(raw), c.Seed)%uint64(len(names)))]
-		pc.Steps = append(pc.Steps, proto.Step{M: "textDocument/didSave", N: true, P: json.RawMessage(fmt.Sprintf(`{"textDocument":{"uri":"file://$ROOT/%s"},"text":%s}`, sv, jstr(files[sv])))},
+		svText := files[sv]
+		if sv == "main.lua" {
+			svText = late
+		}
+		pc.Steps = append(pc.Steps, proto.Step{M: "textDocument/didSave", N: true, P: json.RawMessage(fmt.Sprintf(`{"textDocument":{"uri":"file://$ROOT/%s"},"text":%s}`, sv, jstr(svText)))},
 			proto.Step{M: "textDocument/hover", P: posParams("main.lua", 0, 7)})
 		r := &cfgRun{abs: a, raw: raw}
 		return &Job{PC: pc, Data: r}
